@@ -212,12 +212,12 @@ def callFunction (env : Env) (name : FunctionName) (args : List (List QR)) :
         | none => .err .ParseError
       | .int p i => match env.f64Parse (showInt i) with     -- `i as f64` = correctly rounded decimal
         | some x => .ok (some (.float p x))
-        | none => .panic .other
+        | none => .panic .floatOfInt
       | .float p x => .ok (some (.float p x))
       | .char p c => match digitOf c with
         | some d => match env.f64Parse (showInt d) with
           | some x => .ok (some (.float p x))
-          | none => .panic .other
+          | none => .panic .floatOfInt
         | none => .err .ParseError
       | _ => .ok none) a
   | .parseString => do
